@@ -218,3 +218,35 @@ def write_evidence(prop: str, tier: str, seed: int, wall: float, rep: Reporter, 
         json.dump(ev, fh, indent=1, default=str)
     os.replace(tmp, path)
     return path
+
+
+# where each property's code lives (module file names): the construct-level numpy / Python contracts of
+# sa/util.numpy_contract_pack are checked there and reported under that property as rule <id>.z
+CONTRACT_SCOPE = {
+    "C03": (("mcmc.py", "modes.py"), "the kernel no longer does what its acceptance ratio assumes"),
+    "C04": (("state_manager.py",), "weights / evidence are computed from other values than the stored history"),
+    "C05": (("reweight.py",), "the temperature search works on corrupted evaluations"),
+    "C06": (("resample.py",), "the resampled indices / rows are not the ones drawn"),
+    "C07": (("mutate.py", "resample.py", "core.py", "mcmc.py"), "stored particles stop being coherent (u, x, logL, blob) records"),
+    "C11": (("mutate.py",), "zero-likelihood draws are not replaced as intended"),
+    "C12": (("core.py", "sampler.py"), "the returned posterior / evidence do not describe the stored history"),
+    "C14": (("modes.py", "train.py", "resample.py"), "labels and modes stop referring to the same clusters"),
+    "C15": (("cluster.py",), "the fitted mixture is not the weighted fit of the data it was given"),
+    "C17": (("state_manager.py",), "internal state is changed or shared behind the accessors"),
+    "C19": (("student.py", "modes.py"), "the fitted location / scale is not that of the weighted particles"),
+    "C20": (("tools.py",), "the weight utilities return values of another weight vector"),
+}
+
+
+def run_rules(mod, prog):
+    ctx = Context(prog)
+    rep = Reporter(mod.PROP)
+    mod.run(ctx, rep)
+    scope = CONTRACT_SCOPE.get(mod.PROP)
+    if scope is not None:
+        from .util import numpy_contract_pack
+
+        files, what = scope
+        funcs = [f for f in prog.functions.values() if f.module.relpath.split("/")[-1] in files]
+        rep.guard(numpy_contract_pack, ctx, rep, f"{mod.PROP}.z", funcs, what)
+    return ctx, rep
